@@ -374,8 +374,12 @@ func (c *conv) stmt(s ast.Stmt) *Stmt {
 		return one(&Grp{Api: "For", Args: []Arg{h}}, c.block(x.Body))
 	case *ast.LabeledStmt:
 		st := one(id(x.Label.Name), op(":"), kw("Line"))
-		if _, empty := x.Stmt.(*ast.EmptyStmt); !empty {
+		if es, empty := x.Stmt.(*ast.EmptyStmt); !empty {
 			st.Items = append(st.Items, add(c.stmt(x.Stmt)))
+		} else if !es.Implicit {
+			// `L: ;` followed by further statements: without the explicit semicolon the label
+			// would attach to the next statement
+			st.Items = append(st.Items, op(";"))
 		}
 		return st
 	case *ast.DeclStmt:
